@@ -25,8 +25,8 @@ func parseDump(s string) *dumpRec { return spw.ParseDump(s) }
 // known: signatures already recorded in known_findings.jsonl — used ONLY to choose which violation of a case to report
 // first (an unrecorded one wins), never to suppress one.
 var known = map[string]bool{
-	"C23:shutdown-saves-under-caller-id":        true,
-	"C23:rewarded-after-shutdown":               true,
+	// "C23:shutdown-saves-under-caller-id" and "C23:rewarded-after-shutdown" were fixed by repo commit d221d33: they
+	// are NOT listed here any more, so a regression is reported first (and, being unlisted in known_findings, as a VIOLATION)
 	"C23:shutdown-refresh-before-authorisation": true,
 	"C23:storagesc-kill-on-miner-id-panics":     true,
 }
@@ -291,12 +291,12 @@ func fixed() [][]string {
 	}
 	r := hexF(0.1)
 	return [][]string{
-		// the design-phase probe: shut-down by the delegate wallet
+		// the design-phase probe: shut-down by the delegate wallet (before d221d33 the dead pool went to the caller's key)
 		{hdr(0.5), "reg blobber 30 50 10 " + r, "lock blobber 30 41 10000000000000 1700000000", "lock blobber 30 42 3330000000007 1700000000", "dump",
 			"shutdown blobber 30 50", "dump", "reward blobber 30 1000000", "dump", "shutdown blobber 30 50", "dump"},
 		// shut-down of a validator by the contract owner
 		{hdr(0.5), "reg validator 35 53 10 " + r, "lock validator 35 41 100000000001 1700000000", "dump", "shutdown validator 35 3", "dump", "kill validator 35 3", "dump"},
-		// the delegate wallet of blobber 30 is itself blobber 31: shutting 30 down overwrites 31's pool
+		// the delegate wallet of blobber 30 is itself blobber 31 (before d221d33 shutting 30 down overwrote 31's pool)
 		{hdr(0.5), "reg blobber 30 31 10 " + r, "reg blobber 31 51 10 " + r, "lock blobber 30 41 10000000000000 1700000000", "lock blobber 31 42 5000000000000 1700000000", "dump",
 			"shutdown blobber 30 31", "dump", "unlock blobber 31 42 2000000000", "dump"},
 		// a stranger "shuts down" an already shut-down blobber: the refresh runs before any authorisation
